@@ -286,13 +286,10 @@ def check(ctx):
     if not _dict_tests(each.node, set(each.params())):
         ctx.ob("C10-R6", each.fq, "Each has a dictionary arm", False, node=each.node, construct="each dict arm")
     ctx.instance("C10-R6", size.fq)
-    rets = [r for r in walk_local(size.node) if isinstance(r, ast.Return)]
-    ok = len(rets) == 1
-    if ok:
-        v = rets[0].value
-        while isinstance(v, ast.IfExp):
-            v = v.orelse
-        ok = isinstance(v, ast.Call) and callee_name(v) == "len" and src(v.args[0]) == size.params()[0]
+    from ..flow import return_alts as _ralts
+    # the result for an operand that is neither a number nor a character: the alternative reached when every type test has failed
+    default = [v for facts, v, _r in _ralts(size.node) if not any(pol for _t, pol in facts)]
+    ok = len(default) == 1 and isinstance(default[0], ast.Call) and callee_name(default[0]) == "len" and len(default[0].args) == 1 and src(default[0].args[0]) == size.params()[0]
     ctx.ob("C10-R6", size.fq, "Size of a non-number, non-character operand is len(operand)", ok, node=size.node, construct="size is len")
 
 
